@@ -360,6 +360,14 @@ def rule_r2(ctx: Ctx) -> None:
             if len(sel) != 1 or len(ok) != 1 or not (isinstance(ok[0].result, dict) and list(ok[0].result) == [u.fields[tag].name]):
                 bad.append({"tag": tag, "variants": n, "found": [r.raised or r.result for r in sel]})
         ctx.check(not bad, "_serdes._deserialize_composite[%s]" % u.name, "union tag guard", "a tag beyond the last variant is UnionTagError; otherwise the variant with that index is decoded (no wrapping)", where, bad[:4])
+    # ---- the bits a reader hands out are the caller's: the reader is built over the input as given - not over a lengthened or
+    # shortened copy, whose length would take the place of the data's in every comparison with `remaining_bits`
+    for sch in (S["delimited"][0], S["structures"][1]):
+        for kw in ({"with_delimiter_header": True}, {}) if sch is S["delimited"][0] else ({},):
+            runs0 = K.reader_runs(ctx, "deserialize", sch, **kw)
+            over = sorted({repr(e_[1]) for r in runs0 for e_ in r.events if e_[0] == "READER-OVER"})
+            ctx.count()
+            ctx.check(over == [repr("data")], "_serdes.deserialize[%s]" % sch.name, "the reader is built over %s" % ", ".join(over or ["?"]), "missing trailing bytes read as zeros *implicitly*: the amount of data that remains - which the delimiter-header guard compares with - is that of the input given", where, over)
     # ---- delimiter header, both copies
     for d in S["delimited"][:1]:
         for fname, kw in (("_deserialize_composite", {}), ("deserialize", {"with_delimiter_header": True})):
@@ -367,7 +375,7 @@ def rule_r2(ctx: Ctx) -> None:
             bad = delimiter_guard_table(ctx, fname, runs)
             ctx.check(not bad, "_serdes.%s[DelimitedType]" % fname, "delimiter header guard", "a header announcing more bytes than remain is DelimiterHeaderError; otherwise the nested object is confined to exactly 8 x header bits", where, bad[:4])
             # which quantity is compared: the header just read against the bits remaining *in this reader* after the header
-            hdr_first = all((not r.events) or r.events[0][0] == "BITS" for r in runs)
+            hdr_first = all((not [e_ for e_ in r.events if e_[0] != "READER-OVER"]) or [e_ for e_ in r.events if e_[0] != "READER-OVER"][0][0] == "BITS" for r in runs)
             ctx.check(hdr_first, "_serdes.%s[DelimitedType]" % fname, "the header is read before anything else", "the header is the first thing consumed", where, nontrivial=False)
 
 
